@@ -318,6 +318,18 @@ impl World {
         self.persist(p, &op);
         let outcome = self.process(p, &op);
         self.first_at[p].insert(i, self.calls[p]);
+        if std::env::var("VERIF_C39_TRACE").is_ok() {
+            eprintln!(
+                "[trace] peer {p} first-processes message {i} ({} by {}): {}",
+                Self::describe(&op),
+                self.log[i].author,
+                match &outcome {
+                    Outcome::Ok(ev) => format!("ok, {} events", ev.len()),
+                    Outcome::Err(e) => format!("ERR {e}"),
+                    Outcome::Panic(m) => format!("PANIC {m}"),
+                }
+            );
+        }
         match outcome {
             Outcome::Ok(_) => {
                 self.first[p].insert(i, true);
@@ -485,6 +497,9 @@ impl World {
 
     fn step(&mut self, step: &Step) -> Result<(), String> {
         let n = self.n();
+        if std::env::var("VERIF_C39_TRACE").is_ok() {
+            eprintln!("[trace] step {step:?} (log has {} messages)", self.log.len());
+        }
         match step {
             Step::CreateSpace { by, members, access } => {
                 let by = idx(*by, n);
@@ -802,7 +817,19 @@ fn check_history(case: &History) -> CaseResult {
     }];
     steps.extend(case.steps.iter().cloned());
     for step in &steps {
-        w.step(step)?;
+        // A panic inside a *local* API call is outside this property (which is about processing
+        // messages); it is reported as such so that it cannot be mistaken for one.
+        match catch_unwind(AssertUnwindSafe(|| w.step(step))) {
+            Ok(r) => r?,
+            Err(e) => {
+                let m = e
+                    .downcast_ref::<&str>()
+                    .map(|s| s.to_string())
+                    .or_else(|| e.downcast_ref::<String>().cloned())
+                    .unwrap_or_default();
+                return Err(format!("LOCAL-ACTION-PANIC in step {step:?}: {m}"));
+            }
+        }
     }
     w.flush()?;
 
@@ -1240,7 +1267,7 @@ fn check_messages(case: &Messages) -> CaseResult {
                     .log
                     .iter()
                     .map(|r| &r.op)
-                    .filter(|op| matches!(op.borrow() as &Args, SpacesArgs::SpaceMembership { direct_messages, .. } if !direct_messages.is_empty()))
+                    .filter(|op| matches!(&op.header.extensions, SpacesArgs::SpaceMembership { direct_messages, .. } if !direct_messages.is_empty()))
                     .collect();
                 let direct_messages = match dms {
                     DmSel::Empty => vec![],
@@ -1385,7 +1412,7 @@ pub fn run(mut ctx: Ctx) -> ! {
         2500,
     )
     .min_nontrivial(0.5)
-    .shrink_iters(250);
+    .shrink_iters(60);
     ctx.run_prop(histories, || history_strategy(max_steps), check_history);
 
     let messages = Part::new(
@@ -1397,7 +1424,7 @@ pub fn run(mut ctx: Ctx) -> ! {
         5000,
     )
     .min_nontrivial(0.5)
-    .shrink_iters(250);
+    .shrink_iters(60);
     ctx.run_prop(messages, messages_strategy, check_messages);
     ctx.finish()
 }
